@@ -270,15 +270,16 @@ type prioSys struct {
 }
 
 type prioBuild struct {
-	Ver     string
-	Div     divFn
-	DivV1   v1prio.Divider // v1 variants: used instead of Div when set
-	H       uint
-	Inputs  []*pInput
-	OutCap  int // v1
-	FbCap   int // v1
-	Abort   <-chan struct{}
-	Entered int // simple: capacity of the entered channel
+	Ver             string
+	Div             divFn
+	DivV1           v1prio.Divider // v1 variants: used instead of Div when set
+	H               uint
+	Inputs          []*pInput
+	OutCap          int // v1
+	FbCap           int // v1
+	Abort           <-chan struct{}
+	Entered         int           // simple: capacity of the entered channel
+	HandleExitDelay time.Duration // v1 Simple: time Handle needs to return once its context is cancelled
 }
 
 func buildPrio(b prioBuild) (*prioSys, error) {
@@ -426,7 +427,10 @@ func buildPrio(b prioBuild) (*prioSys, error) {
 			enteredCh <- c
 			select {
 			case <-c.gate:
-			case <-hctx.Done(): // Handle honours its context
+			case <-hctx.Done(): // Handle honours its context: it returns, after a bounded clean-up time
+				if b.HandleExitDelay > 0 {
+					time.Sleep(b.HandleExitDelay)
+				}
 			case <-b.Abort:
 			}
 			s.returned.Add(1)
